@@ -217,11 +217,11 @@ int muggle_path_exists(const char *path)
 
 int muggle_path_join(const char *path1, const char *path2, char *ret, unsigned int size)
 {
-	unsigned int max_len = size - 1;
-	if (max_len <= 0)
+	if (size <= 1)
 	{
 		return MUGGLE_ERR_INVALID_PARAM;
 	}
+	unsigned int max_len = size - 1;
 
 	int len_path1 = (int)strlen(path1);
 	int len_path2 = (int)strlen(path2);
